@@ -44,6 +44,15 @@ def _pretty_order(value, obj_keys=None):
     return value
 
 
+def _selected_properties(obj):
+    """The names of the properties which the object's granular markings select."""
+    names = set()
+    for marking in obj.get("granular_markings") or []:
+        for selector in marking.get("selectors") or []:
+            names.add(selector.split(".")[0])
+    return names
+
+
 class STIXJSONEncoder(json.JSONEncoder):
     """Custom JSONEncoder subclass for serializing Python ``stix2`` objects.
 
@@ -61,8 +70,11 @@ class STIXJSONEncoder(json.JSONEncoder):
             return format_datetime(obj)
         elif isinstance(obj, stix2.base._STIXBase):
             tmp_obj = dict(obj)
+            selected = _selected_properties(obj)
             for prop_name in obj._defaulted_optional_properties:
-                del tmp_obj[prop_name]
+                # (a granular marking must find the property it selects)
+                if prop_name not in selected:
+                    del tmp_obj[prop_name]
             if self.pretty_order:
                 tmp_obj = _pretty_order(tmp_obj, list(obj))
             return tmp_obj
